@@ -769,8 +769,13 @@ func (c *Context) Ln(d, x *Decimal) (Condition, error) {
 
 	// tmp1 = z - 1
 	ed.Sub(&tmp1, &z, decimalOne)
-	// tmp3 = 0.1
-	tmp3.SetFinite(1, -1)
+	// tmp3 = 0.11: the power series is used for |z-1| <= 0.11, which covers
+	// every z with |ln(z)| < 0.1 (e^0.1 = 1.105...). For such z outside the
+	// series range the result was assembled from ln(z/10) + ln(10), two values
+	// above 2 that cancel down to less than 0.1, which costs more digits than
+	// the two guard digits provide (Ln(1.1012969) at Precision 4 was off by
+	// 1.15 units in the last place).
+	tmp3.SetFinite(11, -2)
 
 	usePowerSeries := false
 
